@@ -656,6 +656,44 @@ def flatten_internal_bases(tree):
     return n
 
 
+def generators_to_expressions(tree):
+    """a generator function whose whole body is one loop nest ending in a single `yield e` (`for t in it: [if c:] yield e`) returns what
+    the generator expression `(e for t in it if c)` returns; and `f(*(e for ..))` / `f(*g())` unpacks exactly the elements of
+    `f(*[e for ..])`.  Both are rewritten so that a helper written as a generator reads like the comprehension it stands for."""
+    n = 0
+    for fn in ast.walk(tree):
+        if not isinstance(fn, ast.FunctionDef):
+            continue
+        body = [st for st in fn.body if not (isinstance(st, ast.Expr) and isinstance(st.value, ast.Constant) and isinstance(st.value.value, str))]
+        if len(body) != 1 or not isinstance(body[0], ast.For):
+            continue
+        yields = [x for st in fn.body for x in _own_walk(st) if isinstance(x, (ast.Yield, ast.YieldFrom))]
+        if len(yields) != 1 or not isinstance(yields[0], ast.Yield) or yields[0].value is None:
+            continue
+        gens, cur, ok = [], body[0], True
+        while True:
+            if isinstance(cur, ast.For) and not cur.orelse and len(cur.body) == 1:
+                gens.append(ast.comprehension(target=cur.target, iter=cur.iter, ifs=[], is_async=0))
+                cur = cur.body[0]
+            elif isinstance(cur, ast.If) and not cur.orelse and len(cur.body) == 1 and gens:
+                gens[-1].ifs.append(cur.test)
+                cur = cur.body[0]
+            else:
+                break
+        if not (isinstance(cur, ast.Expr) and cur.value is yields[0]) or not gens:
+            continue
+        ret = ast.copy_location(ast.Return(value=ast.GeneratorExp(elt=yields[0].value, generators=gens)), body[0])
+        fn.body = [st for st in fn.body if st is not body[0]] + [ret]
+        ast.fix_missing_locations(ret)
+        n += 1
+    for node in ast.walk(tree):
+        if isinstance(node, ast.Starred) and isinstance(node.value, ast.GeneratorExp) and isinstance(getattr(node, "ctx", None), ast.Load):
+            g = node.value
+            node.value = ast.copy_location(ast.ListComp(elt=g.elt, generators=g.generators), g)
+            n += 1
+    return n
+
+
 def hoist_walrus(tree):
     """`if (x := e):` / `if (x := e) > 1:` / `if not (x := e):` -> `x = e` followed by the test on x: the assignment expression is the
     first thing the test evaluates, so binding it in a statement of its own changes nothing"""
@@ -832,7 +870,7 @@ def _ensure_nf_imports(tree):
 def normalise(tree):
     """in place; returns the number of rewrites.  Order: temporaries and tuple assignments, append loops, private helpers
     (whose bodies are then already in normal form), and temporaries / tuples once more for what the inlining exposed"""
-    total = flatten_internal_bases(tree) + hoist_walrus(tree) + tables_to_branches(tree) + namedtuples_to_tuples(tree) + unroll_literal_loops(tree) + apply_partials(tree) + partials_to_defs(tree) + split_on_shared_predicates(tree) + split_conditional_returns(tree)
+    total = flatten_internal_bases(tree) + generators_to_expressions(tree) + hoist_walrus(tree) + tables_to_branches(tree) + namedtuples_to_tuples(tree) + unroll_literal_loops(tree) + apply_partials(tree) + partials_to_defs(tree) + split_on_shared_predicates(tree) + split_conditional_returns(tree)
     ast.fix_missing_locations(tree)
     total += _temps_and_tuples(tree)
     n = append_loops_to_comprehensions(tree) + fuse_comprehensions(tree)
